@@ -574,4 +574,65 @@ def prun : PState → List PAct → Option PState
     | some s' => prun s' as
     | none => none
 
+/-! ## §4 Dispatch — what a `parallel_for` call hands to the body, per backend (driver only)
+
+For the Internal backend one canonical schedule of §2 is run (`sched`): whatever it does is an
+execution of `step false`, so the theorems about reachable states apply to its result. -/
+
+inductive Backend where
+  | tbb | omp | internal | debug
+deriving DecidableEq, Repr
+
+/-- canonical scheduler: finish the SplitAndAddTask activations first, then run what is in flight,
+    then pop. `room`: free slots of the (one) pipe – a push is chosen while fewer partitions are queued. -/
+def sched (room : Nat) (s : State) : Option Act :=
+  match s.jobs with
+  | j :: _ =>
+    if j.pend.isSome then (if s.queued.length < room then some (.push 0) else some (.inline 0))
+    else if j.s ≠ j.e then some (.take 0) else some (.jobDone 0)
+  | [] =>
+    match s.inflight with
+    | p :: _ => if p.s < p.e then some (.exec 0) else some (.finish 0)
+    | [] =>
+      match s.queued with
+      | _ :: _ => some (.pop 0)
+      | [] => none
+
+/-- run the canonical scheduler until nothing is enabled (or the fuel is used up: `none`) -/
+def runSched (room : Nat) : Nat → State → Option State
+  | 0, _ => none
+  | fuel + 1, s =>
+    match sched room s with
+    | some a =>
+      match step false s a with
+      | some s' => runSched room fuel s'
+      | none => none
+    | none => some s
+
+/-- `parallel_for_internal(size, body)` on `threads` scheduler threads: AddTaskSetToPipe, WaitforTask;
+    the partition indices the body was called with, oldest first. `none`: the waiter could not return. -/
+def runSet (threads room size : Nat) : Option (List Nat) :=
+  match step false init (.add size 1 (numPartitions threads) (numInitialPartitions threads)) with
+  | some s0 =>
+    match runSched room (8 * size + 64) s0 with
+    | some s => if waitMayReturn s 0 then some ((s.executed.filter (·.1 = 0)).map (·.2)).reverse else none
+    | none => none
+  | none => none
+
+/-- the indices `fcn` is called with by `parallel_for<T>(n, fcn)` (one admissible order).
+    TBB / OpenMP: the external contract (each index of [0,n) once, nothing for n ≤ 0). -/
+def dispatch (b : Backend) (threads room : Nat) (T : CTy) (n : Int) : Option (List Int) :=
+  match b with
+  | .tbb => some (indexRange n)
+  | .omp => some (indexRange n)
+  | .debug => serialLoop T n
+  | .internal =>
+    match internalSets n with
+    | some sets =>
+      sets.foldr (fun fs acc =>
+        match acc, runSet threads room fs.2.toNat with
+        | some rest, some idx => some (idx.map (fun (i : Nat) => internalIndex T fs.1 (Int.ofNat i)) ++ rest)
+        | _, _ => none) (some [])
+    | none => none
+
 end RkVerif.C01
